@@ -471,6 +471,23 @@ def default_case(case):
         r.check(type(pri[0]).__name__ == want_cls, 'default-class', 'default/class/function/%s' % tagm,
                 got=type(pri[0]).__name__)
         check_prior(r, pri[0], rp, 'default-function/' + tagm)
+    # ... and called again in the same process for a parameter of the same name, with the other mode and other bounds
+    # and once more without the optional third argument: the default prior follows the tuple handed in now (nothing is
+    # remembered between calls)
+    for again_mode, again_bounds, third in (('log' if expect[target][0] == 'linear' else 'linear', [2.0, 50.0], True),
+                                            (expect[target][0], [3.0, 7.0], False),
+                                            ('log' if expect[target][0] == 'linear' else 'linear', [4.0, 9.0], False)):
+        tup2 = ('p', '$p$', lambda: store.get('v'), lambda v: store.__setitem__('v', v), again_mode, True, list(again_bounds))
+        try:
+            fp2, pri2, allp2, _ = compile_params({'p': tup2}, {}, {}) if third else compile_params({'p': tup2}, {})
+        except Exception as e:
+            r.check(False, 'default-function', 'default/function/second-call-raised/%s' % type(e).__name__, exc=repr(e))
+            break
+        if r.check(len(pri2) == 1, 'default-function', 'default/function/second-call-selection', n=len(pri2)):
+            want_cls2, rp2 = ref.default_prior(again_mode, again_bounds)
+            r.check(type(pri2[0]).__name__ == want_cls2, 'default-class', 'default/class/function-second-call/%s' % again_mode,
+                    got=type(pri2[0]).__name__, want=want_cls2)
+            check_prior(r, pri2[0], rp2, 'default-function-second-call/' + again_mode)
     r.nontrivial = case['mode'] is not None or case['bounds'] is not None
     return r
 
